@@ -10,8 +10,10 @@ import (
 	"net/http"
 	"path"
 	"strconv"
+	"strings"
 	"sync"
 	"time"
+	"unicode/utf8"
 
 	"google.golang.org/grpc"
 	"google.golang.org/grpc/codes"
@@ -397,7 +399,9 @@ func handleStream(svr interface{}, serviceName string, desc *grpc.StreamDesc, st
 			}
 			statProto := st.Proto()
 			tr.Code = statProto.Code
-			tr.Message = statProto.Message
+			// Message is a proto3 string: invalid UTF-8 would make the whole
+			// trailer impossible to marshal, so sanitize it like gRPC does.
+			tr.Message = strings.ToValidUTF8(statProto.Message, string(utf8.RuneError))
 			tr.Details = statProto.Details
 		}
 
